@@ -10,7 +10,8 @@
    decode_string_array the clause holds for EVERY constructible screen, and is stated so below; the former
    witnesses are now Examples of successful round trips C02_ex_zero_rows and C02_ex_zero_rows_supplied. *)
 From Coq Require Import ZArith List Bool.
-From Batchie Require Import Lib.Sexp Model.Encode Model.Screen Model.Persist Proofs.C02Encode Proofs.C02Persist.
+From Batchie Require Import Lib.Sexp Model.Encode Model.Screen Model.Persist Proofs.C02Encode Proofs.C02Persist
+  Generated.SrcPersist Proofs.C02Source.
 Import ListNotations.
 Open Scope Z_scope.
 
@@ -160,4 +161,103 @@ Example C02_ex_zero_rows_supplied :
             /\ load (save s) = Ok s /\ cycles 2 s = Ok s
   | Err _ => False
   end.
+Proof. vm_compute. repeat split. Qed.
+
+(* ---- source-translation links: the model IS the code ----
+   Generated/SrcPersist.v holds the Gallina translations of the WHOLE methods Screen.save_h5, Screen.load_h5,
+   ExperimentSpace.from_screen, ExperimentSpace.save_h5 and ExperimentSpace.load_h5, regenerated from /repo's current
+   data.py on every run (harness/py2gal.py; configurations C02_* of harness/src_functions.py).  They work on a raw HDF5
+   file [h5raw] = its datasets and attributes BY NAME (end of Model/Persist.v): save_h5 denotes the raw file it has
+   written (one [h5_create] per create_dataset call of the source), load_h5 reads one ([h5_read_*] per f[NAME][:]).
+   [h5_close] / [h5_close_space] is the representation map raw file -> the model's record (every dataset of the record is
+   present under its name).  Trusted: the translator and the configured primitives (h5py create_dataset / f[NAME][:] /
+   attrs per literal name, numpy's np.char.encode / decode / np.empty inside the translated codec helpers, the attribute reads
+   of a Screen, Screen(...) / ExperimentSpace(...) as the model constructors on the arrays the call site passes). *)
+
+(* the helpers encode_string_array / decode_string_array, translated too (1-d and 2-d arrays): with their
+   `arr.size == 0` guard they are the identity on the strings of every array, also one without elements - where
+   np.char.encode / decode alone answer with a float64 array (tag 33, the defect repaired in /repo 81a412f) *)
+Theorem C02_model_is_source_string_codec :
+  (forall a : list name, src_encode_string_array_1d a = Ok a) /\ (forall a : h5_2d name, src_encode_string_array_2d a = Ok a) /\
+  (forall a : list bname, src_decode_string_array_1d a = Ok a) /\ (forall a : h5_2d bname, src_decode_string_array_2d a = Ok a).
+Proof. exact src_string_codec_is_identity. Qed.
+Print Assumptions C02_model_is_source_string_codec.
+
+(* Screen.save_h5 writes exactly the model's file: the 14 datasets + 1 attribute under the names the model gives
+   them, each from the attribute of the screen the model says - the six mapping datasets included; stated through
+   h5_close, so independent of the order of the create_dataset calls *)
+Theorem C02_model_is_source_screen_save_h5 : forall s : screen,
+  (dor w <- src_screen_save_h5 s; h5_close w) = Ok (save s).
+Proof. exact src_screen_save_h5_is_model. Qed.
+Print Assumptions C02_model_is_source_screen_save_h5.
+
+(* Screen.load_h5 on ANY raw file that represents a record f (all 14 datasets + the attribute present with their
+   kinds) is the model's load f: the datasets it reads, and the keyword of Screen(...) each one reaches - treatment_names,
+   treatment_doses, observations, observation_mask, sample_names, plate_names, control_treatment_name,
+   sample_mapping = (sample_mapping_names, sample_mapping_ids), treatment_mapping = (treatment_mapping_names, _doses, _ids);
+   the stored id datasets are not read *)
+Theorem C02_model_is_source_screen_load_h5 : forall (w : h5raw) (f : file),
+  h5_close w = Ok f -> src_screen_load_h5 w = load f.
+Proof. exact src_screen_load_h5_is_model. Qed.
+Print Assumptions C02_model_is_source_screen_load_h5.
+
+(* the translated load_h5 applied to the raw file the translated save_h5 wrote is the model's load (save s), for every
+   screen record: C02_load_save_characterised and everything above are theorems about the translated source *)
+Theorem C02_model_is_source_screen_save_load : forall s : screen,
+  (dor w <- src_screen_save_h5 s; src_screen_load_h5 w) = load (save s).
+Proof. exact src_screen_save_load_is_model. Qed.
+Print Assumptions C02_model_is_source_screen_save_load.
+
+(* ... in particular: every constructible screen comes back from the translated methods, after any number of cycles *)
+Theorem C02_source_round_trip : forall rows arity ctrl tmap smap og mg s,
+  mk_screen rows arity ctrl tmap smap og mg = Ok s ->
+  (dor w <- src_screen_save_h5 s; src_screen_load_h5 w) = Ok s /\ forall n, src_cycles n s = Ok s.
+Proof. exact src_screen_round_trip. Qed.
+Print Assumptions C02_source_round_trip.
+
+(* ExperimentSpace.from_screen: the screen's two mappings and its control name *)
+Theorem C02_model_is_source_space_from_screen : forall s : screen,
+  src_space_from_screen s = Ok (space_of_screen s).
+Proof. exact src_space_from_screen_is_model. Qed.
+Print Assumptions C02_model_is_source_space_from_screen.
+
+Theorem C02_model_is_source_space_save_h5 : forall sp : space,
+  (dor w <- src_space_save_h5 sp; h5_close_space w) = Ok (space_save sp).
+Proof. exact src_space_save_h5_is_model. Qed.
+Print Assumptions C02_model_is_source_space_save_h5.
+
+Theorem C02_model_is_source_space_load_h5 : forall (w : h5raw) (g : sfile),
+  h5_close_space w = Ok g -> src_space_load_h5 w = space_load g.
+Proof. exact src_space_load_h5_is_model. Qed.
+Print Assumptions C02_model_is_source_space_load_h5.
+
+Theorem C02_model_is_source_space_save_load : forall sp : space,
+  (dor w <- src_space_save_h5 sp; src_space_load_h5 w) = space_load (space_save sp).
+Proof. exact src_space_save_load_is_model. Qed.
+Print Assumptions C02_model_is_source_space_save_load.
+
+(* from_screen, save_h5, load_h5 as translated, one after the other, on any screen *)
+Theorem C02_source_space_round_trip : forall s : screen,
+  (dor sp <- src_space_from_screen s; dor w <- src_space_save_h5 sp; src_space_load_h5 w) = Ok (space_of_screen s).
+Proof. exact src_space_round_trip. Qed.
+Print Assumptions C02_source_space_round_trip.
+
+(* non-vacuity of the hypothesis of the load links: what the translated save_h5 writes does represent a record, and a
+   raw file lacking a dataset represents none (the translated load_h5 then raises KeyError, tag 30) *)
+Example C02_ex_source_raw :
+  match mk_screen ex_rows 2 [] (Some (ex_tmap, true)) (Some (ex_smap, true)) true true with
+  | Ok s => match src_screen_save_h5 s with
+            | Ok w => h5_close w = Ok (save s) /\ src_screen_load_h5 w = Ok s
+                      /\ List.length (h_data w) = 14%nat /\ List.length (h_attrs w) = 1%nat
+            | Err _ => False
+            end
+  | Err _ => False
+  end
+  /\ src_screen_load_h5 h5_empty = Err 30 /\ src_space_load_h5 h5_empty = Err 30.
+Proof. vm_compute. repeat split. Qed.
+
+(* what the guard of the codec helpers is for: numpy's own codec on arrays without elements *)
+Example C02_ex_codec_guard :
+  np_char_codec1 [] = Err 33 /\ np_char_codec2 (2%nat, []) = Err 33 /\ np_char_codec2 (0%nat, [[]; []]) = Err 33
+  /\ src_encode_string_array_2d (2%nat, []) = Ok (2%nat, []) /\ src_decode_string_array_1d [] = Ok [].
 Proof. vm_compute. repeat split. Qed.
